@@ -111,11 +111,13 @@ class Group:
         goal = solve.eq_trees(lhs, rhs, tol)
         return self.holds(desc, goal, assumptions, timeout_ms=timeout_ms, pairs=(lhs, rhs), T=T, tol=tol, cases=cases)
 
-    def holds(self, desc, goal, assumptions=(), timeout_ms=None, pairs=None, T=None, tol=None, cases=()):
+    def holds(self, desc, goal, assumptions=(), timeout_ms=None, pairs=None, T=None, tol=None, cases=(), base=True):
+        """base=False: prove the goal from `assumptions` alone (not the group's assumptions) -- a weaker hypothesis,
+        hence a stronger statement; used where extra hypotheses only slow the solver down"""
         from . import solve
         import z3
         import itertools
-        assum = list(self.assumptions) + list(assumptions)
+        assum = (list(self.assumptions) if base else []) + list(assumptions)
         self._nontrivial.add(desc)
         cases = [c for c in cases if z3.is_expr(c) and not z3.is_true(c) and not z3.is_false(c)]
         if cases and self.replay is None:
@@ -123,7 +125,7 @@ class Group:
             worst = None
             for combo in itertools.product([True, False], repeat=len(cases)):
                 extra = [c if b else z3.Not(c) for c, b in zip(cases, combo)]
-                r = self.holds(desc + "", goal, list(assumptions) + extra, timeout_ms=timeout_ms, pairs=pairs, T=T, tol=tol)
+                r = self.holds(desc + "", goal, list(assumptions) + extra, timeout_ms=timeout_ms, pairs=pairs, T=T, tol=tol, base=base)
                 if r["verdict"] != "proved":
                     return r
                 self.records.pop()
@@ -149,6 +151,51 @@ class Group:
         if res.verdict == "sat":
             return self._confirm(desc, goal, assum, res, pairs, tol)
         return self._rec(desc, "inconclusive", time=round(res.time, 3), detail=f"solver: {res.verdict} {res.reason}")
+
+    def rat_eq(self, desc, lhs, rhs, split=None, assumptions=(), timeout_ms=None, base=True, subst=()):
+        """obligation lhs == rhs between rational functions of the real variables, for ALL values of the integer
+        index variables in `split` (dict var -> iterable of ints; exhaustive case split, the cases are substituted and
+        simplified so that index `ite`s disappear) and all real values satisfying the assumptions."""
+        from . import solve, symjax as sj
+        import z3
+        import itertools
+        if self.replay is not None:
+            return self.holds(desc, lhs == rhs, assumptions, timeout_ms=timeout_ms, base=base)
+        self._nontrivial.add(desc)
+        assum = (list(self.assumptions) if base else []) + list(assumptions)
+        split = dict(split or {})
+        vs = list(split)
+        t_tot, n = 0.0, 0
+        if isinstance(lhs, (list, tuple)):
+            # several identities under one obligation
+            worst = None
+            for l_, r_ in zip(lhs, rhs):
+                rec = self.rat_eq(desc, l_, r_, split, assumptions, timeout_ms, base, subst)
+                if rec["verdict"] != "proved":
+                    return rec
+                self.records.pop()
+                t_tot += rec.get("time", 0)
+                n += 1
+            return self._rec(desc, "proved", time=round(t_tot, 4), detail=f"{n} identities, rational normal form + solver")
+        for combo in itertools.product(*[list(split[v]) for v in vs]):
+            sub = [(v, z3.IntVal(int(c))) for v, c in zip(vs, combo)]
+            l, r = (z3.substitute(lhs, *sub), z3.substitute(rhs, *sub)) if sub else (lhs, rhs)
+            A = [z3.simplify(z3.substitute(a, *sub)) for a in assum] if sub else assum
+            if any(z3.is_false(a) for a in A):
+                continue            # this index combination is excluded by the assumptions
+            A = [a for a in A if not z3.is_true(a)]
+            l, r = z3.simplify(l), z3.simplify(r)
+            if solve.has_ite(l) or solve.has_ite(r):
+                l, r = solve.resolve_ites(l, A), solve.resolve_ites(r, A)
+            res = solve.prove_rat_eq(l, r, A, timeout_ms=timeout_ms, subst=subst)
+            n += 1
+            t_tot += res.time
+            if res.verdict != "unsat":
+                # hand the failing case to the general path (replay / inconclusive reporting)
+                eqs = [v == c for v, c in zip(vs, combo)]
+                return self.holds(desc, z3.Implies(z3.And(*eqs) if eqs else z3.BoolVal(True), lhs == rhs), assumptions,
+                                  timeout_ms=timeout_ms, base=base)
+        return self._rec(desc, "proved", time=round(t_tot, 4), detail=f"{n} index case(s), rational normal form + solver")
 
     def _structure_ok(self, pairs):
         import jax
